@@ -219,7 +219,11 @@ def check(ctx, rep):
                     if not (a.node.args and norm(a.node.args[0]) == var):
                         problems.append(f"`{norm(a.node)}` appends something other than the directory entry's name")
                 for d in decided:
-                    args = [norm(x) for x in d.node.args]
-                    if len(args) >= 3 and (args[2] != var or var not in args[1] or "selectorbase" not in args[1]):
-                        problems.append("the filter is not applied to selectorbase/name")
+                    from ..structure import concat_pieces
+
+                    args = list(d.node.args)
+                    if len(args) >= 3:
+                        pcs = concat_pieces(expand_ast(args[1], pi, d.defs or {}))
+                        if norm(args[2]) != var or pcs != [("expr", "self.selectorbase"), ("lit", "/"), ("expr", var)]:
+                            problems.append("the filter is not applied to selectorbase/name")
         rep.add("R07f", f"{pi.qualname}: append iff accepted, once", not problems, ctx.where(pi), "; ".join(sorted(set(problems))), key="R07f|prep_initfiles")
